@@ -5,9 +5,9 @@ pub struct HashTok;
 pub uninterp spec fn hlog<H>(h: &H) -> Seq<HashTok>;
 pub uninterp spec fn tok_seq<T>(s: Seq<T>) -> HashTok;
 pub uninterp spec fn tok_sign(s: Sign) -> HashTok;
-//@ assume <Vec<T> as Hash>::hash : std: feeds the length and the elements in order - a function of the element sequence
+//@ assume Vec::hash : std: feeds the length and the elements in order - a function of the element sequence
 pub assume_specification<T: core::hash::Hash, A: core::alloc::Allocator, H: core::hash::Hasher>[ <Vec<T, A> as core::hash::Hash>::hash::<H> ](v: &Vec<T, A>, state: &mut H)
     ensures hlog(final(state)) == hlog(old(state)).push(tok_seq(v@));
-//@ assume <Sign as Hash>::hash : #[derive(Hash)] on a field-less enum feeds the discriminant - a function of the variant
+//@ assume Sign::hash(derived) : #[derive(Hash)] on a field-less enum feeds the discriminant - a function of the variant
 pub assume_specification<H: core::hash::Hasher>[ <Sign as core::hash::Hash>::hash::<H> ](v: &Sign, state: &mut H)
     ensures hlog(final(state)) == hlog(old(state)).push(tok_sign(*v));
